@@ -157,11 +157,18 @@ def replay_known(entry, timeout=120):
         return None, 'no replay script'
     cmd = ['/venv/bin/python', os.path.join(VERIF, script)] + list(entry.get('args', []))
     env = dict(os.environ, PYTHONPATH=f'{repo_mod.REPO_ROOT}:{VERIF}', PYTHONDONTWRITEBYTECODE='1')
-    try:
-        p = subprocess.run(cmd, capture_output=True, text=True, timeout=timeout, env=env, cwd=VERIF)
-        return p.returncode, (p.stdout + p.stderr)[-1500:]
-    except subprocess.TimeoutExpired:
-        return 2, 'replay timed out'
+    # a demonstration that does not reproduce turns a listed finding into a reported violation: never let a stalled machine
+    # decide that -- three attempts, the finding counts as still there when any of them reproduces it
+    rc, out = 2, 'not run'
+    for _attempt in range(3):
+        try:
+            p = subprocess.run(cmd, capture_output=True, text=True, timeout=timeout, env=env, cwd=VERIF)
+            rc, out = p.returncode, (p.stdout + p.stderr)[-1500:]
+        except subprocess.TimeoutExpired:
+            rc, out = 2, 'replay timed out'
+        if rc == 0:
+            break
+    return rc, out
 
 
 def main(argv=None):
